@@ -64,7 +64,7 @@ def _tokens(s):
 
 def _atom(tok):
     t = tok
-    for suf in ("%float", "%Z", "%nat", "%N", "%Q", "%positive"):
+    for suf in ("%float", "%Z", "%nat", "%N", "%Q", "%positive", "%uint63", "%R"):
         if t.endswith(suf):
             t = t[: -len(suf)]
     if t == "true":
